@@ -115,6 +115,7 @@ def h_ceil(I, args, kw, st, n):
 def h_identity(I, args, kw, st, n):
     if not args: return Opaque("no argument")
     a = args[0]
+    if isinstance(a, lm.Masked): return a
     if isinstance(a, (ListVal, tuple, list)): return list_to_arr(a)
     return a
 
@@ -144,6 +145,7 @@ def h_len(I, args, kw, st, n):
     if isinstance(a, DictVal): return X.const(len(a.d)) if not a.open else Opaque("len of open dict")
     if isinstance(a, Arr): return a.axes[0][1] if a.axes else Opaque("len of 0-d")
     if isinstance(a, ArrParam): return a.shape(0)
+    if isinstance(a, lm.Masked): return a.count()
     if isinstance(a, LocalArr): return a.shape[0]
     if isinstance(a, lm.RangeVal): return a.count()
     if isinstance(a, PV): return pv_apply(lambda x: h_len(I, [x], kw, st, n), a)
@@ -233,6 +235,8 @@ def _like(fill):
 
 
 def h_arange(I, args, kw, st, n):
+    if any(isinstance(a, PV) for a in args):
+        return pv_apply(lambda *xs: h_arange(I, list(xs), kw, st, n), *args)
     xs = [_x(a) for a in args]
     if any(x is None for x in xs): return Opaque("arange of non-numbers")
     v = fresh("i")
@@ -592,6 +596,14 @@ _reg("numba.cuda.to_device", h_to_device)
 _reg("time.perf_counter time.time", h_opaque("clock"))
 
 
+NO_PV_LIFT = {"builtins.isinstance", "builtins.getattr", "builtins.dict", "builtins.callable", "builtins.print", "numpy.where", "numpy.select"}
+
+
+def _has_array_leaf(v):
+    if isinstance(v, PV): return _has_array_leaf(v.hi) or _has_array_leaf(v.lo)
+    return isinstance(v, (Arr, ArrParam, LocalArr))
+
+
 def call_lib(I, name, args, kw, st, n):
     name = lm.canon(name)
     h = I.hooks.get("lib")
@@ -606,6 +618,8 @@ def call_lib(I, name, args, kw, st, n):
     if any(is_opaque(a) for a in args[:1]) and name not in ("builtins.isinstance", "builtins.getattr", "builtins.dict", "builtins.callable", "builtins.len", "builtins.print"):
         return type(args[0])(f"{name}({args[0].why})")
     try:
+        if args and isinstance(args[0], PV) and name not in NO_PV_LIFT and _has_array_leaf(args[0]):
+            return pv_apply(lambda x: x if is_opaque(x) else fn(I, [x] + list(args[1:]), dict(kw), st, n), args[0])
         return fn(I, list(args), dict(kw), st, n)
     except Unknown as ex:
         return Opaque(f"{name}: {ex}")
@@ -655,8 +669,8 @@ def call_method(I, o, name, args, kw, st, n):
         return Opaque(f"list method {name}")
     if isinstance(o, DictVal):
         if name == "get":
-            k = args[0]
-            if isinstance(k, str) and k in o.d: return o.d[k]
+            k = lm.dkey(args[0])
+            if k is not None and k in o.d: return o.d[k]
             if o.open: return Opaque(f"get {k!r} from open dict")
             return args[1] if len(args) > 1 else None
         if name == "items":
